@@ -513,7 +513,7 @@ harness! { fn c10_callbacks_clone_from_3() unwind(18) { callbacks_clone_from::<3
 harness! { fn c10_callbacks_clone_from_2() unwind(18) { callbacks_clone_from::<2>() } }
 harness! { fn c10_drop_point_destroy_any_3() unwind(18) { drop_point_destroy::<3>(0) } }
 harness! { fn c10_drop_point_destroy_directany_2() unwind(18) { drop_point_destroy::<2>(1) } }
-harness! { fn c10_drop_point_iter_destroy_3() unwind(18) { drop_point_destroy::<3>(2) } }
+harness! { fn c10_drop_point_iter_destroy_2() unwind(18) { drop_point_destroy::<2>(2) } }
 harness! { fn c10_capacity_overflow_create() unwind(3) { capacity_overflow_create() } }
 harness! { fn c10_capacity_overflow_with_capacity() unwind(3) { capacity_overflow_with_capacity() } }
 
